@@ -50,17 +50,20 @@ def main(tier, seed):
     chk.set('rule',
             'Trees: every leaf; every expression kind at the root with every factory-legal arity in {min..3} and ALL '
             'argument tuples over the leaf alphabet (numbers 0,-0.0,1,2.5; v0,v1; c0,c1; false,true; "", "a", "ab"; '
-            'quick uses a 4-leaf alphabet at arity 3); PL terms (all 1-breakpoint terms over {0,-0.0,1} x 4 references, '
-            '1..3-breakpoint bases); depth 2: every kind x every argument slot x one representative of every kind '
-            'class, plus full products of representatives below the first kind of each binary/iterated class (thorough: '
-            'every kind, plus IF/IMPLICATION/IFSYM/NUMBEROF_SYM/COUNT/EXISTS products); all single-point mutations at '
-            'any node (constant, index, reference kind, operator within class, arity -last/-first/+1, adjacent argument '
-            'swap, function identity among 6 function objects, PL slope/breakpoint/count/order). Every tree is built in '
-            'two ExprFactory instances; ALL unordered pairs of built trees (incl. self, copy, mutant pairs) are compared '
-            'with Equal(a,b), Equal(b,a) and the two hashes. Oracle: recursive structural equality on the generator\'s '
-            'descriptions (numeric == on constants), cross-checked against canonical interning. A class is (root kind, '
-            'relation in {equal, unequal-same-root-kind, unequal-other-root-kind, threw, single-mutation-unequal, '
-            'single-mutation-equal}); distinct_nontrivial = classes observed.')
+            'quick uses 4-leaf alphabets at arity 3 and for calls of f1..floc); PL terms (all 1-breakpoint terms over '
+            '{0,-0.0,1}^3 x 4 references, 1..3-breakpoint bases); depth 2: every kind x every argument slot x one '
+            'representative of every kind class (13 numeric, 8 logical, STRING, IFSYM), plus full products of '
+            'representatives below the first kind of each binary/iterated class and CALL (thorough: below every such kind, '
+            'plus IF/IMPLICATION/IFSYM/NUMBEROF_SYM/COUNT/EXISTS products); all single-point mutations at any node '
+            '(constant, index, reference kind, operator within class, arity -last/-first/+1, adjacent argument swap, '
+            'function identity among 6 function objects, PL slope/breakpoint/count/order) of every leaf, PL term, '
+            'depth-1 tree of arity <= 2 and depth-2 slot tree (quick: slot trees below the first kind of a class, '
+            'operator mutated to the next kind only). Every tree is built in two ExprFactory instances; ALL unordered '
+            'pairs of built trees (incl. self, copy and mutant pairs) are compared with Equal(a,b), Equal(b,a) and both '
+            'hashes. Oracle: recursive structural equality on the generator\'s descriptions (numeric == on constants), '
+            'cross-checked against canonical interning. A class is (root kind, relation in {equal, '
+            'unequal-same-root-kind, unequal-other-root-kind, threw, single-mutation-unequal, single-mutation-equal}); '
+            'distinct_nontrivial = classes observed.')
     chk.set('bounds', {'max_arity': 3, 'depth': 2, 'factories_per_tree': 2, 'shards': 16,
                        'leaf_alphabet': ['0', '-0.0', '1', '2.5', 'v0', 'v1', 'c0', 'c1', 'false', 'true', '""', '"a"', '"ab"'],
                        'functions': ['f0 "f" variadic', 'f1 "g"', 'f2 "f" (same name, other object)',
